@@ -189,6 +189,9 @@ def scenarios():
             # two rows that are exactly equal in quantity and price (a declaration is a list, not a set)
             'dup-sl': {'sl': [[1, 0.05], [1, 0.05]], 'tp': [[1, 0.01], [1, 0.05]]},
             'dup-tp': {'sl': [[2, 0.05]], 'tp': [[1, 0.05], [1, 0.05]]},
+            # a declaration withdrawn altogether: the empty list
+            'sl-withdrawn': {'sl': [], 'tp': 'keep'},
+            'tp-withdrawn': {'sl': 'keep', 'tp': []},
         }
         for seq in itertools.permutations(mods, 2):
             upd = [dict(mods[m], at=i + 1) for i, m in enumerate(seq)] + [dict(A, at=3)]
